@@ -101,6 +101,41 @@ Theorem C17_floatlist_read : robust (floatlist_read precap_of_code) 16 8192.
 Proof. exact DecTop_proofs.robust_floatlist_read. Qed.
 Print Assumptions C17_floatlist_read.
 
+(** ** The reuse-mode decoders, New...Decoder(true): strSlice / makeUintSlice / makeFloatSlice
+    take their other branch (a result slice of capacity 256 kept in the decoder, re-made with
+    the clamped count when that is larger); ReadBytes hands out d.buf itself.  Both modes of
+    the uint / float decoders are covered by one statement each. *)
+Theorem C17_strlist_read_reuse : robust (strlist_read1_reuse precap_of_code) 16 544788.
+Proof. exact DecTop_proofs.robust_strlist_read_reuse. Qed.
+Print Assumptions C17_strlist_read_reuse.
+
+Theorem C17_strlist_read_bytes_reuse : robust (strlist_read_bytes_g true) 16 262200.
+Proof. exact DecTop_proofs.robust_strlist_read_bytes_reuse. Qed.
+Print Assumptions C17_strlist_read_bytes_reuse.
+
+Theorem C17_decode_validated_both_modes : forall (reuse : bool) (pc : precap) (b : bytes) (m : nat),
+  validate_strlist b = Ok m ->
+  exists sl mm, strlist_decode_g reuse pc b = (Ok sl, mm) /\ mm <= 20 * N.of_nat (length b) + 4108.
+Proof. exact DecLists_proofs.decode_validated_g. Qed.
+Print Assumptions C17_decode_validated_both_modes.
+
+Theorem C17_uintlist_both_modes : forall reuse : bool, robust (uintlist_entry reuse precap_of_code) 16 5124.
+Proof. exact DecTop_proofs.robust_uintlist_entry. Qed.
+Print Assumptions C17_uintlist_both_modes.
+
+Theorem C17_floatlist_both_modes : forall reuse : bool, robust (floatlist_entry reuse precap_of_code) 16 10248.
+Proof. exact DecTop_proofs.robust_floatlist_entry. Qed.
+Print Assumptions C17_floatlist_both_modes.
+
+(* a clamp that covers only the non-reusing branch of strSlice leaves the reuse branch
+   uncapped: 6 bytes announcing 2^23 strings -> 128 MiB *)
+Theorem C17_alloc_reuse_branch_refuted :
+  let b := [0; 128; 0; 0; 0; 0] in
+  wf_bytes b /\ length b = 6%nat /\
+  134217728 <= allocated (run_on read_kinds_of_code (strlist_read1_reuse Uncapped) (whole b)).
+Proof. exact DecTop_proofs.reuse_branch_uncapped_alloc. Qed.
+Print Assumptions C17_alloc_reuse_branch_refuted.
+
 (** ** The code before the fixes does not satisfy the property *)
 (* before 8ed4fbc: no length checks in the validators *)
 Theorem C17_unchecked_refuted :
